@@ -294,6 +294,8 @@ def step (s : S) (line : String) : S × String :=
   | "data" :: _ =>
     let xs := parseBitsList ((arg? ws "xs").getD "-")
     ({ s with xs := xs }, s!"ok n={xs.size}")
+  | "sxpcdf" :: _ =>
+    (s, s!"ok {fb (sxpCdf ((argF ws "x").getD 0.0) ((argF ws "mu").getD 0.0) ((argF ws "lambda").getD 0.0) ((argF ws "tau").getD 0.0))}")
   | "gevobj" :: _ =>
     let p := parseBitsList ((arg? ws "p").getD "-")
     if p.size != 3 then (s, "bad-op") else
